@@ -271,6 +271,47 @@ type rowInfo struct {
 	host    string // "\x00" = NULL / column absent
 	region  string
 	t       int64
+	mult    int // number of fully identical copies of this row in the original partition
+}
+
+// takeRow / putRow copy one row across every column (and its validity) of a columnar batch.
+func takeRow(cols map[string]interface{}, validity map[string][]bool, r int) (map[string]interface{}, map[string]bool) {
+	vals, valid := map[string]interface{}{}, map[string]bool{}
+	for name, c := range cols {
+		switch t := c.(type) {
+		case []int64:
+			vals[name] = t[r]
+		case []float64:
+			vals[name] = t[r]
+		case []string:
+			vals[name] = t[r]
+		case []bool:
+			vals[name] = t[r]
+		}
+		valid[name] = true
+		if v, ok := validity[name]; ok {
+			valid[name] = v[r]
+		}
+	}
+	return vals, valid
+}
+
+func putRow(cols map[string]interface{}, validity map[string][]bool, r int, vals map[string]interface{}, valid map[string]bool) {
+	for name, c := range cols {
+		switch t := c.(type) {
+		case []int64:
+			t[r] = vals[name].(int64)
+		case []float64:
+			t[r] = vals[name].(float64)
+		case []string:
+			t[r] = vals[name].(string)
+		case []bool:
+			t[r] = vals[name].(bool)
+		}
+		if v, ok := validity[name]; ok {
+			v[r] = valid[name]
+		}
+	}
 }
 
 // genFiles writes the partition with arc's real Arrow/Parquet writer.
@@ -288,19 +329,36 @@ func genFiles(sc scenario, backend storage.Backend) (map[int64]*rowInfo, error) 
 	// "mixed": files without metadata next to files with it. The tag-column set is then the same in every file (so
 	// that "identical tag values" means the same thing for every subset of files the adaptive retry may compact).
 	mixedRegion := rng.Intn(2) == 0
+	// "<mode>_clones": files 1 and 2 share one column set; file 1 holds a row twice (identical in EVERY column, incl.
+	// rid, with a NULL in "v") and file 2 holds a third copy of it
+	clone := strings.HasSuffix(sc.Dedup, "_clones")
+	base := strings.TrimSuffix(sc.Dedup, "_clones")
+	var saved map[string]interface{}
+	var savedValid map[string]bool
 	rid := int64(sc.ID) * 1000
 	ctx := context.Background()
 	for i := 1; i <= sc.NFiles; i++ {
 		n := 1 + rng.Intn(4)
-		withTagsMeta := sc.Dedup == "tags" || sc.Dedup == "tags_evolve" || (sc.Dedup == "mixed" && (i%2 == 1))
-		hasHost := sc.Dedup != "dedup_time"
+		withTagsMeta := base == "tags" || base == "tags_evolve" || (base == "mixed" && (i%2 == 1))
+		hasHost := base != "dedup_time"
 		hasRegion := hasHost && rng.Intn(2) == 0
-		if sc.Dedup == "mixed" {
+		if base == "mixed" {
 			hasRegion = mixedRegion
+		}
+		fixed := clone && i <= 2
+		pick := func(random, forced bool) bool {
+			if fixed {
+				return forced
+			}
+			return random
+		}
+		hasRegion = pick(hasRegion, false)
+		if fixed && i == 1 && n < 2 {
+			n = 2
 		}
 		// directed recipe (open finding 3): the first two files declare the extra tag "region" and file 1 holds two
 		// rows that differ only in it; the remaining files have no such column and declare only "host"
-		evolve := sc.Dedup == "tags_evolve"
+		evolve := base == "tags_evolve"
 		if evolve {
 			hasRegion = i <= sc.NFiles/2
 			if i == 1 && n < 2 {
@@ -343,7 +401,7 @@ func genFiles(sc scenario, backend storage.Backend) (map[int64]*rowInfo, error) 
 			cols["region"] = regc
 			tags = append(tags, "region")
 		}
-		if rng.Intn(3) != 0 {
+		if pick(rng.Intn(3) != 0, true) {
 			v := make([]float64, n)
 			vv := make([]bool, n)
 			for r := range v {
@@ -353,14 +411,14 @@ func genFiles(sc scenario, backend storage.Backend) (map[int64]*rowInfo, error) 
 			cols["v"] = v
 			validity["v"] = vv
 		}
-		if rng.Intn(2) == 0 {
+		if pick(rng.Intn(2) == 0, false) {
 			c := make([]int64, n)
 			for r := range c {
 				c[r] = int64(rng.Intn(5)) - 2
 			}
 			cols["cnt"] = c
 		}
-		if rng.Intn(2) == 0 {
+		if pick(rng.Intn(2) == 0, true) {
 			c := make([]string, n)
 			cv := make([]bool, n)
 			for r := range c {
@@ -370,18 +428,27 @@ func genFiles(sc scenario, backend storage.Backend) (map[int64]*rowInfo, error) 
 			cols["note"] = c
 			validity["note"] = cv
 		}
-		if rng.Intn(3) == 0 {
+		if pick(rng.Intn(3) == 0, false) {
 			c := make([]bool, n)
 			for r := range c {
 				c[r] = rng.Intn(2) == 0
 			}
 			cols["ok"] = c
 		}
+		if fixed {
+			if i == 1 {
+				validity["v"][0] = false
+				saved, savedValid = takeRow(cols, validity, 0)
+				putRow(cols, validity, 1, saved, savedValid)
+			} else {
+				putRow(cols, validity, 0, saved, savedValid)
+			}
+		}
 		var metaTags []string
 		if withTagsMeta {
 			metaTags = tags
 		}
-		data, err := w.WriteParquetColumnar(ctx, measName, cols, validity, metaTags, sc.Dedup == "dedup_time", nil)
+		data, err := w.WriteParquetColumnar(ctx, measName, cols, validity, metaTags, base == "dedup_time", nil)
 		if err != nil {
 			return nil, fmt.Errorf("WriteParquetColumnar: %w", err)
 		}
@@ -391,7 +458,7 @@ func genFiles(sc scenario, backend storage.Backend) (map[int64]*rowInfo, error) 
 		}
 		for r := 0; r < n; r++ {
 			key := "rid:" + strconv.FormatInt(ridc[r], 10)
-			if sc.Dedup != "none" {
+			if base != "none" {
 				h, g := "\x00", "\x00"
 				if hasHost && hostv[r] {
 					h = hostc[r]
@@ -401,7 +468,11 @@ func genFiles(sc scenario, backend storage.Backend) (map[int64]*rowInfo, error) 
 				}
 				key = fmt.Sprintf("%s|%s|%d", h, g, tcol[r])
 			}
-			ri := &rowInfo{rid: ridc[r], key: key, file: name, host: "\x00", region: "\x00", t: tcol[r]}
+			if prev := rows[ridc[r]]; prev != nil {
+				prev.mult++ // another copy of the same row
+				continue
+			}
+			ri := &rowInfo{rid: ridc[r], key: key, file: name, host: "\x00", region: "\x00", t: tcol[r], mult: 1}
 			if hasHost && hostv[r] {
 				ri.host = hostc[r]
 			}
@@ -559,7 +630,7 @@ func runScenario(sc scenario, dir string, db *sql.DB) (res scenResult) {
 		return fail("initial scan shows %d rows, generated %d", len(count0), len(rows))
 	}
 	for rid, n := range count0 {
-		if n != 1 || rows[rid] == nil {
+		if rows[rid] == nil || n != rows[rid].mult {
 			return fail("initial scan: rid %d shown %d times", rid, n)
 		}
 		rows[rid].content = content0[rid]
@@ -586,6 +657,8 @@ func runScenario(sc scenario, dir string, db *sql.DB) (res scenResult) {
 	keyIdx := map[string]int{}
 	keyCount := map[string]int{}
 	origPairs := [][]int{}
+	multPairs := [][]int{}
+	exact := strings.TrimSuffix(sc.Dedup, "_clones") == "none" // no file carries dedup metadata: row counts must be preserved
 	for _, rid := range rids {
 		k := rows[rid].key
 		if _, ok := keyIdx[k]; !ok {
@@ -593,6 +666,7 @@ func runScenario(sc scenario, dir string, db *sql.DB) (res scenResult) {
 		}
 		keyCount[k]++
 		origPairs = append(origPairs, []int{ridIdx[rid], keyIdx[k]})
+		multPairs = append(multPairs, []int{ridIdx[rid], rows[rid].mult})
 	}
 	for _, n := range keyCount {
 		if n > 1 {
@@ -706,7 +780,7 @@ func runScenario(sc scenario, dir string, db *sql.DB) (res scenResult) {
 	// ---- build the TLC trace from the observation log
 	evs := readEvents(obs)
 	res.Events = evs
-	tr := []map[string]interface{}{{"ev": "start", "sc": sc.ID, "rows": origPairs}}
+	tr := []map[string]interface{}{{"ev": "start", "sc": sc.ID, "rows": origPairs, "mult": multPairs, "exact": exact}}
 	ci := 0
 	for _, e := range evs {
 		switch e["ev"] {
@@ -783,7 +857,7 @@ func judge(sc scenario, rows map[int64]*rowInfo, evs []map[string]interface{}, s
 				break
 			}
 		}
-		if lost == nil || sc.Dedup == "none" {
+		if lost == nil || strings.TrimSuffix(sc.Dedup, "_clones") == "none" {
 			return false, false
 		}
 		isOld := func(n string) bool { return strings.HasSuffix(n, "_compacted.parquet") && n != newestOutput }
@@ -916,7 +990,7 @@ func judge(sc scenario, rows map[int64]*rowInfo, evs []map[string]interface{}, s
 					return verdict{Code: 4, Signature: "row-that-was-never-written-appears", Detail: map[string]interface{}{"cycle": cycle, "rid": rid}}
 				}
 				shown[r.key] += c
-				if c > 1 {
+				if c > r.mult {
 					dup = append(dup, rid)
 				}
 			}
@@ -960,6 +1034,16 @@ func judge(sc scenario, rows map[int64]*rowInfo, evs []map[string]interface{}, s
 					}
 					return verdict{Code: 3, Signature: sig,
 						Detail: map[string]interface{}{"cycle": cycle, "rid": r.rid, "row": r.content, "was_in": r.file, "dedup": sc.Dedup}}
+				}
+			}
+			if strings.TrimSuffix(sc.Dedup, "_clones") == "none" {
+				// no dedup metadata anywhere: nothing may collapse, not even rows that are equal in every column
+				for _, r := range rows {
+					if s.counts[r.rid] < r.mult {
+						return verdict{Code: 3, Signature: "lost-rows:copies-of-a-row-identical-in-every-column-disappeared-from-a-partition-without-dedup-metadata",
+							Detail: map[string]interface{}{"cycle": cycle, "rid": r.rid, "row": r.content, "copies_before": r.mult,
+								"copies_after": s.counts[r.rid], "dedup": sc.Dedup}}
+					}
 				}
 			}
 		}
